@@ -13,7 +13,7 @@ SEEDED = os.path.join(V, 'seeded')
 
 
 def sh(cmd, cwd=None, env=None, timeout=3600):
-    p = subprocess.run(cmd, shell=True, cwd=cwd, env=env, stdout=subprocess.PIPE, stderr=subprocess.STDOUT, text=True, timeout=timeout)
+    p = subprocess.run(cmd, shell=True, cwd=cwd, env=env, stdout=subprocess.PIPE, stderr=subprocess.STDOUT, text=True, errors='replace', timeout=timeout)
     return p.returncode, p.stdout
 
 
